@@ -97,6 +97,15 @@ func (w *c13World) drain() {
 }
 
 func (w *c13World) finish() {
+	for i := range w.frozen {
+		w.obs.Frozen[i] = int(w.frozen[i].Load())
+	}
+	w.parkMu.Lock()
+	w.obs.ParkedBy = map[string]int{}
+	for k, v := range w.parkedBy {
+		w.obs.ParkedBy[k] = v
+	}
+	w.parkMu.Unlock()
 	if n := w.node; n != nil {
 		w.mu.Lock()
 		idle := n.idle
@@ -612,41 +621,79 @@ func c13Scenarios(thorough bool) []c13Planned {
 		}
 	}
 	// The other channel types: our own, the remote and the remote pending
-	// commitment confirming; 0-1 HTLC in the quick tier, every subset in the
-	// thorough tier (pairs of stops up to 2 HTLCs, single stops for 3).
-	for _, ct := range []string{"lease-init", "lease-noninit", "taproot", "taproot-final", "legacy"} {
-		for _, set := range c13Subsets(map[bool]int{false: 1, true: 3}[thorough]) {
-			for _, k := range []string{"local", "remote", "pending"} {
-				s, ok := build(k, false, set, false)
-				if !ok {
-					continue
-				}
-				s.Chan = ct
-				s.Name = ct + ":" + s.Name
-				if ct == "legacy" {
-					s.Anchor = false
-				}
-				nh := len(set)
-				if nh == 3 {
-					nh = 99
-				}
-				if thorough && nh < 2 {
-					nh = 2 // no triples here
-				}
-				if !thorough {
-					nh = 99 // quick tier: every single stop
-				}
-				add(s, nh)
-				if len(set) < 2 {
-					continue
-				}
-				rev := c13Perms(len(set), false)[0]
-				v := s
-				v.HTLCs = append([]c13HTLC{}, s.HTLCs...)
-				v.Layout = rev
-				v.Name += "/slots=" + strings.Trim(strings.ReplaceAll(fmt.Sprint(rev), " ", ""), "[]")
-				add(v, nh)
+	// commitment confirming, and a foreign commitment confirming after our own
+	// broadcast. Rule: on every channel type every close kind meets every letter of
+	// the HTLC alphabet - alone where the close kind allows it, next to the trigger
+	// HTLC where the close kind needs one (our own commitment only goes to chain
+	// because of oN, so "one HTLC" there means oN plus one more). Quick tier: these
+	// 0-1(+trigger) HTLC scenarios with every single stop; thorough tier: every
+	// subset up to 3 (pairs of stops up to 2 HTLCs, single stops for 3), the
+	// after-our-broadcast kinds up to 2.
+	var trigger c13Atom
+	for _, a := range c13Atoms {
+		if a.trigger {
+			trigger = a
+			break
+		}
+	}
+	type typed struct {
+		kind  string
+		first bool
+		set   []c13Atom
+	}
+	var typedScns []typed
+	for _, set := range c13Subsets(map[bool]int{false: 1, true: 3}[thorough]) {
+		for _, k := range []string{"local", "remote", "pending"} {
+			typedScns = append(typedScns, typed{k, false, set})
+		}
+		if len(set) <= 2 {
+			for _, k := range []string{"remote", "pending"} {
+				typedScns = append(typedScns, typed{k, true, set})
 			}
+		}
+	}
+	if !thorough {
+		for _, a := range c13Atoms {
+			if a.trigger {
+				continue
+			}
+			with := []c13Atom{trigger, a}
+			typedScns = append(typedScns, typed{"local", false, with},
+				typed{"remote", true, with}, typed{"pending", true, with})
+		}
+	}
+	for _, ct := range []string{"lease-init", "lease-noninit", "taproot", "taproot-final", "legacy"} {
+		for _, ts := range typedScns {
+			set := ts.set
+			s, ok := build(ts.kind, ts.first, set, false)
+			if !ok {
+				continue
+			}
+			s.Chan = ct
+			s.Name = ct + ":" + s.Name
+			if ct == "legacy" {
+				s.Anchor = false
+			}
+			nh := len(set)
+			if nh == 3 {
+				nh = 99
+			}
+			if thorough && nh < 2 {
+				nh = 2 // no triples here
+			}
+			if !thorough {
+				nh = 99 // quick tier: every single stop
+			}
+			add(s, nh)
+			if len(set) < 2 {
+				continue
+			}
+			rev := c13Perms(len(set), false)[0]
+			v := s
+			v.HTLCs = append([]c13HTLC{}, s.HTLCs...)
+			v.Layout = rev
+			v.Name += "/slots=" + strings.Trim(strings.ReplaceAll(fmt.Sprint(rev), " ", ""), "[]")
+			add(v, nh)
 		}
 	}
 	// Variants without a balance output and without anchors.
@@ -963,6 +1010,9 @@ func TestC13(t *testing.T) {
 		restartHist  = map[string]int{}
 		termHist     = map[string]int{}
 		skipped      []string
+		frozenCalls  [3]int
+		parkedBy     = map[string]int{}
+		postStop     []string
 		capsHit      []string
 		brokenNotes  []string
 		samples      = evid.NewSamples(10)
@@ -994,6 +1044,16 @@ func TestC13(t *testing.T) {
 			}
 			evals++
 			o := r.Obs
+			for i, f := range o.Frozen {
+				frozenCalls[i] += f
+			}
+			for k, v := range o.ParkedBy {
+				parkedBy[k] += v
+			}
+			for _, e := range o.PostStop {
+				// The stop model leaked: a harness problem, never a verdict.
+				postStop = append(postStop, fmt.Sprintf("%s plan %v: %s", r.Scn, r.Plan, e))
+			}
 			kind := fmt.Sprintf("stops=%d", len(r.Plan))
 			bump(r.Scn, kind)
 			termHist[r.Scn+" -> "+o.FinalState]++
@@ -1248,7 +1308,22 @@ func TestC13(t *testing.T) {
 		exhaustive = false
 		capsHit = append(capsHit, "nondeterminism_detected")
 	}
+	if len(postStop) > 0 {
+		exhaustive = false
+		sort.Strings(postStop)
+		brokenNotes = append(brokenNotes, fmt.Sprintf("stop model leaked in %d executions (something that outlives the process changed between the stop instant and the restart), e.g. %s", len(postStop), postStop[0]))
+	}
 
+	parkedSinks := map[string]int{}
+	var parkedOther []string
+	for k, v := range parkedBy {
+		if c13OutlivingSinks[k] {
+			parkedSinks[k] = v
+		} else {
+			parkedOther = append(parkedOther, k)
+		}
+	}
+	sort.Strings(parkedOther)
 	nStops := map[string]int{}
 	for _, m := range perScn {
 		for k, v := range m {
@@ -1272,7 +1347,14 @@ func TestC13(t *testing.T) {
 		"terminal_outcomes":          termHist,
 		"stops_by_preceding_write":   labelHist,
 		"restarts_by_mode_and_state": restartHist,
-		"workers":                    workers,
+		"stop_model_self_check": map[string]any{
+			"executions_with_an_effect_after_the_stop_instant": len(postStop),
+			"parked_write_transactions":                        frozenCalls[c13ParkedWrite],
+			"parked_read_transactions":                         frozenCalls[c13ParkedRead],
+			"parked_calls_on_sinks_that_outlive_the_process":   parkedSinks,
+			"other_dependencies_parked":                        parkedOther,
+			"rule": "at the stop instant (return of the k-th committed write transaction) everything that outlives the process is fingerprinted (commit count of channel.db incl. the nursery store, nursery and witness-cache mirrors, mempool, chain, published/offered/notified sinks, anomalies) and compared at the restart; every call a goroutine of the stopped process still attempts on the database or a harness-owned dependency is parked, never carried out. Counted per sink where the effect would have outlived the process or is read by the oracle; registrations and lookups (which die with the process; how many of them a concurrently running resolver goroutine still attempts is up to the Go scheduler and unobservable) are listed by name only",
+		},
 	}
 	if len(skipped) > 0 {
 		cov["stop_plans_not_reached"] = len(skipped)
@@ -1316,6 +1398,15 @@ func TestC13(t *testing.T) {
 		// Completed with a verdict on what ran, but some executions were lost.
 		t.Logf("c13: %d harness problems", len(brokenNotes))
 	}
+}
+
+// c13OutlivingSinks: harness-owned dependencies whose effect outlives the calling
+// process (durable in channel.db, broadcast) or is recorded for the oracle.
+var c13OutlivingSinks = map[string]bool{
+	"PublishTx": true, "DeliverResolutionMsg": true, "IncubateOutputs": true, "PutFinalHtlcOutcome": true,
+	"AddPreimages": true, "MarkChannelClosed": true, "MarkCommitmentBroadcasted": true, "ForceCloseChan": true,
+	"NotifyChannelResolved": true, "ChainArbitrator.ResolveContract": true, "SweepInput": true, "UpdateParams": true,
+	"NotifyFinalHtlcEvent": true,
 }
 
 func c13Tail(s string, n int) string {
